@@ -724,6 +724,11 @@ class _Inliner:
             elif isinstance(st, FUNC):
                 self._block_owner(st.body, cls, fn_stack + [st], helpers)
             elif fn_stack:
+                repl = self._try_generator(st, cls, fn_stack, helpers) if isinstance(st, ast.For) else None
+                if repl is not None:
+                    body[i:i + 1] = repl
+                    self.count += 1
+                    continue
                 repl = self._try_stmt(st, cls, fn_stack, helpers)
                 if repl is not None:
                     body[i:i + 1] = repl
@@ -741,6 +746,61 @@ class _Inliner:
                 for h in getattr(st, "handlers", []) or []:
                     self._block_owner(h.body, cls, fn_stack, helpers)
             i += 1
+
+    def _try_generator(self, st, cls, fn_stack, helpers):
+        """`for T in gen(args): B` with gen a NEW generator function: gen's text with every `yield e` replaced by `T = e; B`.
+        gen: yields only as statements, no return, no yield from; the loop: no else, and B does not break/continue/return/yield
+        (B runs where the yield stood, so leaving it early would have to close the generator)."""
+        if st.orelse or not isinstance(st.iter, ast.Call):
+            return None
+        h = self.resolve(st.iter, cls, fn_stack, helpers)
+        if h is None:
+            return None
+        helper, is_method = h
+        if helper in fn_stack or isinstance(helper, ast.AsyncFunctionDef) or _would_capture(helper, fn_stack[-1]):
+            return None
+        gbody = _helper_body(helper)
+        nodes = [n for s_ in gbody for n in _walk_local(s_)]
+        yields = [n for n in nodes if isinstance(n, ast.Yield)]
+        if not yields or len(yields) > 3 or any(isinstance(n, (ast.YieldFrom, ast.Return)) for n in nodes):
+            return None
+        ystmts = [n for n in nodes if isinstance(n, ast.Expr) and isinstance(n.value, ast.Yield)]
+        if len(ystmts) != len(yields) or any(y.value is None for y in yields):
+            return None
+        if not (isinstance(st.target, ast.Name) or (isinstance(st.target, ast.Tuple) and all(isinstance(x, ast.Name) for x in st.target.elts))):
+            return None
+        for n in [x for s_ in st.body for x in _walk_local(s_)]:
+            if isinstance(n, (ast.Break, ast.Continue, ast.Return, ast.Yield, ast.YieldFrom, ast.Await)):
+                return None
+        try:
+            prefix, mapping = _bind(helper, st.iter, is_method)
+        except _NotInlinable:
+            return None
+        tnames = {x.id for x in ast.walk(st.target) if isinstance(x, ast.Name)}
+        if tnames & set(v for v in mapping.values() if isinstance(v, str)):
+            return None
+        new = [_Renamer(mapping).visit(copy.deepcopy(s_)) for s_ in gbody]
+
+        def put(stmts):
+            out = []
+            for s_ in stmts:
+                if isinstance(s_, ast.Expr) and isinstance(s_.value, ast.Yield):
+                    out.append(ast.copy_location(ast.Assign(targets=[copy.deepcopy(st.target)], value=s_.value.value, lineno=s_.lineno), s_))
+                    out += [copy.deepcopy(b_) for b_ in st.body]
+                    continue
+                for fld in ("body", "orelse", "finalbody"):
+                    sub = getattr(s_, fld, None)
+                    if isinstance(sub, list) and sub and isinstance(sub[0], ast.stmt):
+                        setattr(s_, fld, put(sub))
+                for h_ in getattr(s_, "handlers", []) or []:
+                    h_.body = put(h_.body)
+                out.append(s_)
+            return out
+        out = prefix + put(new)
+        for s_ in out:
+            ast.fix_missing_locations(s_)
+        self.inlined_helpers[id(helper)] = self.inlined_helpers.get(id(helper), 0) + 1
+        return out
 
     def _call_of(self, e):
         if isinstance(e, ast.Await):
@@ -2830,6 +2890,103 @@ def _apply_new_decorators(modname, tree, inv):
     return n_done
 
 
+# ------------------------------------------------------------------ N23 new NamedTuple records -> plain tuples
+
+def _named_tuples_to_tuples(modname, tree, inv):
+    """a NEW `class R(NamedTuple)` with annotated fields only, used for nothing but construction `R(..)` and field reads `x.f`:
+    constructions become tuple displays in field order and `x.f` becomes `x[k]`.  A field name must not be an attribute anybody
+    defines or stores in this module (then `.f` can only be a read of such a record) and must not be spelled on a module alias."""
+    if inv is None:
+        return 0
+    n_done = 0
+    imported = {a.asname or a.name.split(".")[0] for n in ast.walk(tree) if isinstance(n, (ast.Import, ast.ImportFrom)) for a in n.names}
+    for cls in [c for c in tree.body if isinstance(c, ast.ClassDef)]:
+        if len(cls.bases) != 1 or _dotted(cls.bases[0]) not in ("NamedTuple", "typing.NamedTuple") or cls.decorator_list:
+            continue
+        if any(k.startswith(f"{modname}:{cls.name}.") for k in inv):
+            continue
+        fields = []
+        ok = True
+        for x in cls.body:
+            if isinstance(x, ast.AnnAssign) and isinstance(x.target, ast.Name) and x.value is None:
+                fields.append(x.target.id)
+            elif isinstance(x, ast.Expr) and isinstance(x.value, ast.Constant):
+                continue
+            elif isinstance(x, ast.Pass):
+                continue
+            else:
+                ok = False          # defaults, methods
+        if not ok or not fields:
+            continue
+        inside = {id(x) for x in ast.walk(cls)}
+        parents = {}
+        for p_ in ast.walk(tree):
+            for c in ast.iter_child_nodes(p_):
+                parents[id(c)] = p_
+        ctor_calls = []
+        for x in ast.walk(tree):
+            if id(x) in inside:
+                continue
+            if isinstance(x, ast.Name) and x.id == cls.name:
+                p_ = parents.get(id(x))
+                if isinstance(p_, ast.Call) and p_.func is x:
+                    ctor_calls.append(p_)
+                else:
+                    ok = False      # isinstance, annotations, subclassing, ...
+            elif isinstance(x, ast.Attribute) and x.attr == cls.name:
+                ok = False
+        if not ok:
+            continue
+        reads = []
+        for x in ast.walk(tree):
+            if isinstance(x, ast.Attribute) and (x.attr in fields or x.attr in ("_replace", "_asdict", "_fields", "_make")):
+                if x.attr.startswith("_") and x.attr not in fields:
+                    ok = False
+                elif not isinstance(x.ctx, ast.Load) or (isinstance(x.value, ast.Name) and x.value.id in imported | {"self", "cls"}):
+                    ok = False
+                else:
+                    reads.append(x)
+            elif isinstance(x, (ast.FunctionDef, ast.AsyncFunctionDef, ast.ClassDef)) and x.name in fields and id(x) not in inside:
+                ok = False
+            elif isinstance(x, ast.keyword) and x.arg in fields and not any(x in c.keywords for c in ctor_calls):
+                pass
+        if not ok:
+            continue
+        tuples = []
+        for c in ctor_calls:
+            vals = {}
+            if any(isinstance(a, ast.Starred) for a in c.args) or any(k.arg is None for k in c.keywords) or len(c.args) > len(fields):
+                ok = False
+                break
+            for f_, a in zip(fields, c.args):
+                vals[f_] = a
+            for k in c.keywords:
+                if k.arg not in fields or k.arg in vals:
+                    ok = False
+                vals[k.arg] = k.value
+            if not ok or set(vals) != set(fields):
+                ok = False
+                break
+            # keyword arguments are evaluated in the order written: keep that order only if it is the field order or the values are plain
+            written = [a for a in c.args] + [k.value for k in c.keywords]
+            ordered = [vals[f_] for f_ in fields]
+            if [id(v) for v in written] != [id(v) for v in ordered] and not all(_simple_arg(v) for v in written):
+                ok = False
+                break
+            tuples.append((c, ast.copy_location(ast.Tuple(elts=ordered, ctx=ast.Load()), c)))
+        if not ok:
+            continue
+        for c, t in tuples:
+            _replace_node(tree, c, t)
+        for x in reads:
+            _replace_node(tree, x, ast.copy_location(ast.Subscript(value=x.value, slice=ast.Constant(value=fields.index(x.attr)), ctx=ast.Load()), x))
+        tree.body[tree.body.index(cls)] = ast.copy_location(ast.Pass(), cls)
+        n_done += 1
+    if n_done:
+        ast.fix_missing_locations(tree)
+    return n_done
+
+
 # ------------------------------------------------------------------ N7 nested ifs without else -> one conjunction
 
 def _merge_nested_ifs(fn):
@@ -3221,6 +3378,7 @@ def normalize(modname, tree):
     stats["module_constants"] = _propagate_module_constants(tree)
     inv = inventory()
     stats["context_managers"] = _rewrite_context_managers(modname, tree, inv)
+    stats["named_tuples"] = _named_tuples_to_tuples(modname, tree, inv)
     stats["properties"] = _properties_to_methods(modname, tree, inv)
     stats["decorators_applied"] = _apply_new_decorators(modname, tree, inv)
     stats["devirtualised"] = _devirtualise(modname, tree, inv)
